@@ -442,7 +442,9 @@ class Gen:
                 pos = r.choice([i for i, t in enumerate(hrel["types"]) if t == "i"])
                 res = self.fresh("i")
                 c["body"].append({"k": "agg", "op": "sum", "res": V(res), "tgt": N(r.choice([1, 2, 3])),
-                                  "body": [{"k": "atom", "rel": src["name"], "args": [ANY] * src["arity"]}], "outer": []})
+                                  # named variables, not `_`: souffle sums once per tuple, and Datalog.tla aggregates over the
+                                  # set of valuations of the NAMED variables (a wildcard would collapse the tuples)
+                                  "body": [{"k": "atom", "rel": src["name"], "args": [V(self.fresh(t)) for t in src["types"]]}], "outer": []})
                 c["head"]["args"][pos] = V(res)
                 feats.add("opt-const-sum")
 
